@@ -195,7 +195,7 @@ package arvados
 // block, starts at max(offset, pos) and ends at min(offset+length, next), and
 // is never empty (filenode.seek relies on that); a token reaching past the end
 // of the stream is an error.
-//@ func dirnode.loadManifest property C09,C10,C08,C17 safety -bounds
+//@ func dirnode.loadManifest property C03,C09,C10,C08,C17 safety -bounds
 //@   loop 2: invariant 0 <= segIdx && segIdx <= len(segments) && pos == stsum(row(segments), rowoff(segments), segIdx) && (!anyFileTokens ==> pos == 0 && segIdx == 0)
 //@   loop 2: invariant forall j int :: 0 <= j && j < len(segments) ==> segments[j].offset == 0 && segments[j].length == segments[j].size && segments[j].size >= 0
 //@   loop 3: invariant 0 <= segIdx && segIdx <= len(segments) && pos == stsum(row(segments), rowoff(segments), segIdx) && anyFileTokens && offset >= 0 && length >= 0
